@@ -696,6 +696,15 @@ def make_case(rng, k, family='plain', small=False, slot=None):
             x[a0] = 0.0 if code == 'code0' else rng.choice([1.0, -1.0])
             mask[a0] = False
             focus = a0
+        if family in ('plain', 'binwise') and rng.random() < 0.35:
+            # a FREE parameter exactly on one of its bounds (mu = 0, mu = 10, an alpha on -5/5, a gamma on 10): the objective is
+            # smooth there, the gradient is the ordinary derivative (an implementation that clips into the box halves it)
+            bnds = [(float(a), float(b)) for a, b in pdf.config.suggested_bounds()]
+            i0 = rng.randrange(cm['npars'])
+            lo_, hi_ = bnds[i0]
+            x[i0] = lo_ if (lo_ <= 0.0 and rng.random() < 0.7) else hi_
+            mask[i0] = False
+            on_bound = i0
         if min(rate_float(cm, x)) <= 1e-3:
             continue
         data = gen_data(rng, cm, x)
